@@ -1,6 +1,9 @@
 """Compile-probe of the unchanged tree: which (operation, dims, configuration) combinations does the library support?
 
   python3-vt -m vf.c09_gen probe [--ops a,b] [--flavors asan,clang,nostl] [--family index|view]
+  python3-vt -m vf.c09_gen probe --core      only the groups of the deterministic core (vf/c09_run.py core_entries): each group is
+                                             compiled with its own baked values / signature; configurations that compile are ADDED to
+                                             the asan allow-list of (operation, dims); nothing is removed
 
 writes vf/c09_supported.json:  {flavor: {op: {dims: [configuration, ...]}}}.  The file is committed; checks only read it.
 """
@@ -152,12 +155,50 @@ def save(sup):
     os.replace(tmp, G.SUPPORTED_JSON)
 
 
+def probe_core(sup, ops=None, flavor="asan"):
+    from . import c09_run as CR
+    os.makedirs(os.path.join(B.BUILD, "c09_probe"), exist_ok=True)
+    workdir = tempfile.mkdtemp(prefix="c%d_" % os.getpid(), dir=os.path.join(B.BUILD, "c09_probe"))
+    t0 = time.time()
+    entries = [e for e in CR.core_entries() if not ops or e[0] in ops]
+
+    def work(e):
+        opn, dims, baked, sig, cfgs, values = e
+        o = G.OPS[opn]
+        full = {a.name: None for a in o.args}
+        full.update(sig)
+        g = G.Group(0, o, dims, [baked], full, list(cfgs))
+        ok, errors = _probe_list(o, g, list(cfgs), flavor, workdir)
+        sys.stderr.write("[probe-core] %-22s %-14s %3d ok %3d rejected %s\n" % (opn, dims, len(ok), len(errors), sorted(errors)))
+        return e, ok, errors
+
+    errlog = {}
+    with ThreadPoolExecutor(max_workers=JOBS) as ex:
+        for (opn, dims, *_), ok, errors in ex.map(work, entries):
+            cur = sup.setdefault(flavor, {}).setdefault(opn, {}).setdefault(repr(dims), [])
+            for c in ok:
+                if c not in cur:
+                    cur.append(c)
+            for c, er in errors.items():
+                errlog.setdefault(opn, {})["%s %s" % (dims, c)] = er
+    try:
+        os.rmdir(workdir)
+    except OSError:
+        pass
+    save(sup)
+    with open(os.path.join(B.BUILD, "c09_probe", "rejected_core_%d.json" % os.getpid()), "w") as f:
+        json.dump(errlog, f, indent=1, sort_keys=True)
+    sys.stderr.write("[probe-core] done in %.0fs\n" % (time.time() - t0))
+    return 0
+
+
 def main(argv):
     ops = None
     flavors = list(G.FLAVORS)
     family = None
     restrict_to = None
     redo = False
+    core = False
     it = iter(argv[1:] if argv and argv[0] == "probe" else argv)
     for a in it:
         if a == "--ops":
@@ -170,7 +211,11 @@ def main(argv):
             restrict_to = next(it)
         elif a == "--redo":
             redo = True
+        elif a == "--core":
+            core = True
     sup = G.load_supported()
+    if core:
+        return probe_core(sup, ops)
     todo = []
     for name, o in G.OPS.items():
         if ops and name not in ops:
@@ -213,7 +258,7 @@ def main(argv):
             if name not in G.OPS:
                 del sup[fl][name]
                 continue
-            keep = {repr(d) for d in G.OPS[name].dims}
+            keep = {repr(d) for d in list(G.OPS[name].dims) + list(G.OPS[name].core_dims)}
             for d in list(sup[fl][name]):
                 if d not in keep:
                     del sup[fl][name][d]
